@@ -477,6 +477,22 @@ func (g *PG) builtinCall(sc *scope, ty Ty, depth int) Val {
 			return Call("foldl", S(pick("+", "*", "-", "max")), g.Expr(sc, TyInt, depth-1), g.Expr(sc, TyList, depth-1))
 		}
 	case TyNum:
+		if g.pct(12, "bigmixed") {
+			// integers near the 64-bit and 2^53 boundaries in a sum that also
+			// holds a float: every operand is converted before anything is
+			// added, so integer wrap-around can never be part of the result
+			g.stat("big-mixed-sum")
+			bigs := []int64{9223372036854775807, 9223372036854775806, -9223372036854775808, -9223372036854775807, 9007199254740993, 9007199254740992, 4611686018427387904, 1, -1, 2}
+			n := g.n(2, 4, "nbig")
+			args := make([]Val, 0, n+1)
+			for i := 0; i < n; i++ {
+				args = append(args, I(rapid.SampledFrom(bigs).Draw(g.t, "big")))
+			}
+			fl := F(rapid.SampledFrom([]float64{0.5, 0, -1.5, 1e3}).Draw(g.t, "bigf"))
+			at := g.n(0, len(args), "fpos")
+			args = append(args[:at:at], append([]Val{fl}, args[at:]...)...)
+			return Call(pick("+", "+", "-", "max", "min"), args...)
+		}
 		switch op := pick("+", "-", "*", "/", "pow", "to-float", "max", "min"); op {
 		case "pow":
 			return Call("pow", g.args(sc, depth, TyNum, TyNum)...)
@@ -1076,6 +1092,36 @@ func (g *PG) higherOrder(sc *scope, ty Ty, depth int) Val {
 	g.stat("higher-order")
 	switch ty {
 	case TyInt, TyNum, TyAny:
+		if g.pct(20, "designator") {
+			// a function named by a QUOTED SYMBOL is looked up in the package,
+			// never in the caller's lexical scope: a local function of the same
+			// name (flet / labels / a let-bound lambda) must not be picked up
+			g.stat("quoted-symbol-designator")
+			name := rapid.SampledFrom([]string{"+", "max", "f", "g", "h", "zz-nowhere"}).Draw(g.t, "dname")
+			local := L(S(name), L(S("a"), S("b")), L(S(rapid.SampledFrom([]string{"*", "-", "list"}).Draw(g.t, "lop")), S("a"), S("b")))
+			lst := g.Expr(sc, TyList, depth-2)
+			var use Val
+			switch g.n(0, 4, "duse") {
+			case 0:
+				use = Call("foldl", QS(name), g.Expr(sc, TyInt, depth-2), lst)
+			case 1:
+				use = Call("foldr", QS(name), g.Expr(sc, TyInt, depth-2), lst)
+			case 2:
+				use = Call("funcall", QS(name), g.Expr(sc, TyInt, depth-2), I(3))
+			case 3:
+				use = Call("apply", QS(name), Call("list", I(2), g.Expr(sc, TyInt, depth-2)))
+			default:
+				use = Call("map", QS("list"), L(S("lambda"), L(S("e")), Call("funcall", QS(name), S("e"), I(1))), lst)
+			}
+			switch g.n(0, 2, "dbind") {
+			case 0:
+				return L(S("flet"), L(local), use)
+			case 1:
+				return L(S("labels"), L(local), use)
+			default:
+				return L(S("let"), L(L(S(name), L(S("lambda"), L(S("a"), S("b")), L(S("*"), S("a"), S("b"))))), use)
+			}
+		}
 		p, q := "acc", "e"
 		inner := &scope{vars: []varInfo{{name: p, ty: TyInt}, {name: q, ty: TyInt}}, parent: sc}
 		f := L(S("lambda"), L(S(p), S(q)), g.Expr(inner, TyInt, depth-2))
